@@ -227,6 +227,11 @@ var Corruptions = func() []Corruption {
 		Corruption{"filter-kinds-too-large", isFil, filField("kinds", func(t *rapid.T) J {
 			return JArr{JInt(rapid.SampledFrom([]int64{65536, 70000, 1 << 33}).Draw(t, "k")), JInt(1)}
 		})},
+		Corruption{"filter-kinds-element-null", isFil, filField("kinds", func(t *rapid.T) J { return JArr{JInt(1), JRaw("null"), JInt(2)} })},
+		Corruption{"filter-tag-value-element-null", isFil, filField("#t", func(t *rapid.T) J { return JArr{JStr("x"), JRaw("null")} })},
+		Corruption{"filter-ids-element-null", isFil, filField("ids", func(t *rapid.T) J {
+			return JArr{JStr(rapid.StringMatching("[0-9a-f]{64}").Draw(t, "h")), JRaw("null")}
+		})},
 		Corruption{"filter-kinds-string", isFil, filField("kinds", func(t *rapid.T) J { return JArr{JStr("1")} })},
 		Corruption{"filter-kinds-float", isFil, filField("kinds", func(t *rapid.T) J { return JArr{JRaw("1.5")} })},
 		Corruption{"filter-kinds-not-array", isFil, filField("kinds", func(t *rapid.T) J { return JInt(1) })},
@@ -280,7 +285,9 @@ func upperOneHexNoDraw(s string) string {
 // required to yield a sound value if accepted; their rejection is demanded by
 // C12, not by C11.
 func MustReject(name string) bool {
-	if strings.HasSuffix(name, "-null") {
+	// JSON null in place of a whole value is not claimed either way; a null *element* of a
+	// list is a wrongly typed element and must be rejected
+	if strings.HasSuffix(name, "-null") && !strings.HasSuffix(name, "-element-null") {
 		return false
 	}
 	switch name {
